@@ -289,6 +289,13 @@ class ClientWorldObjectManager:
         """Start tracking objects for a region"""
         if self._get_region_manager(handle) is None:
             self._region_managers[handle] = proxify(self._session.region_by_handle(handle).objects)
+            # Objects may have been moved into this region before we started tracking it
+            # (regionless until now.) They belong to the region's state from here on,
+            # track_object() links them to their parents / orphans like any new object.
+            region_state = self._region_managers[handle].state
+            for obj in tuple(self._fullid_lookup.values()):
+                if obj.RegionHandle == handle and region_state.lookup_localid(obj.LocalID) is not obj:
+                    region_state.track_object(obj)
 
     def untrack_region_objects(self, handle: int):
         """Handle signal that a region object manager was just cleared"""
